@@ -41,7 +41,8 @@ Definition lower (l : list byte) := map lower_c l.
 Definition is_trim (c : byte) : bool := (c =? 32) || (c =? 9) || (c =? 13) || (c =? 10).
 Fixpoint drop_trim (l : list byte) : list byte :=
   match l with c :: t => if is_trim c then drop_trim t else l | [] => [] end.
-Definition trim (l : list byte) : list byte := rev (drop_trim (rev (drop_trim l))).
+(* rev_append instead of rev: linear time in the extracted code (List.rev is quadratic) *)
+Definition trim (l : list byte) : list byte := rev_append (drop_trim (rev_append (drop_trim l) [])) [].
 
 (* extractQuotedText: start = find_first_of('"') + 1 (npos + 1 wraps to 0), end = find_last_not_of('"');
    npos == end -> ""; else substr(start, end - start + 1) with the length computed modulo 2^64 *)
